@@ -41,7 +41,7 @@ NREG = 10
 CTORS = ['ni', 'nf', 'ns', 'np', 'na', 'na', 'na', 'nl', 'nl', 'nt', 'nt', 'nr', 'nr', 'nu', 'nR', 'ng', 'nn', 'nn']
 MUT = ['pu', 'pu', 'ap', 'pa', 'pa', 'po', 'pt', 'se', 'se', 'rm', 'rm', 'so', 'rs', 'cl', 'cc', 'as', 'sw', 'cp', 'el', 'el', 'el', 'el']
 OBS = ['ge', 'ge', 'me', 'ln', 'ha', 'it', 'it', 'ib', 'sl', 'rv', 'zp', 'en', 'fi', 'ma', 'ty', 'sh', 'de', 'ci', 'cm', 'lk', 'iq']
-FREE = ['tc', 'tc', 'tn', 'rg', 'fm', 'fm', 'fm', 'sn', 'ca', 'gc', 'gc', 'D', 'D', 'dr', 'dr', 'dl', 'dl', 'th', 'mx', 'fl', 'hp', 'tf', 'tf', 'rw', 'sk', 'sk', 'mm', 'mm', 'mm']
+FREE = ['tc', 'tc', 'tn', 'rg', 'fm', 'fm', 'fm', 'sn', 'ca', 'gc', 'gc', 'D', 'D', 'dr', 'dr', 'dl', 'dl', 'th', 'mx', 'fl', 'hp', 'tf', 'tf', 'rw', 'sk', 'sk', 'mm', 'mm', 'mm', 'hv', 'hv']
 
 
 def rint(rng):
@@ -210,6 +210,8 @@ def gen_wl(rng, nops):
                 if op == 'dl':      # the harness clears the Refs to a deleted object; which ones is not tracked here
                     for q in [q for q, kd in kinds.items() if kd == 'Ref']:
                         pass
+            elif op == 'hv':
+                toks.append('hv:%d,%d,%d' % (rng.randrange(10), rng.randrange(0, 200), rint(rng)))
             elif op == 'mm':
                 toks.append('mm:%d,%d,%d' % (rng.randrange(16), rng.randrange(0, 64), rint(rng)))
             elif op == 'tf':
@@ -522,6 +524,8 @@ def join(pre, toks):
 
 
 CORPUS_WL = [
+    # seed C18-r6-1: heap views holding the only reference to their inputs, a collection, then use of the view
+    'wl|' + ' '.join('hv:%d,%d,%d' % (k, 7 + 5 * k, 3 + k) for k in range(10)) + ' gc D',
     # seed C18-r4-2: manual memory management, every destructor path with boundary contents (emptied Box, …)
     'wl|' + ' '.join('mm:%d,%d,%d' % (k, 5 + 3 * k, 7 + k) for k in range(16)) + ' gc D',
     'wl|mm:0,1,1 mm:1,63,5 mm:2,0,4 mm:1,21,0 mm:3,9,4 mm:4,9,0 mm:6,3,1 mm:6,3,0 mm:7,2,0 mm:7,2,4 mm:11,4,0 mm:12,8,3 mm:13,1,1 mm:14,2,2 gc D',
